@@ -24,7 +24,7 @@ COLL_KIND = {"cal": "calendar", "ab": "addressbook", "c2": "calendar"}
 
 AUDIT_PROPS = [
     dav.P_GETETAG, dav.P_RESOURCETYPE, dav.P_CTAG_CS, dav.P_CTAG_DAV, dav.P_SYNCTOKEN,
-    dav.P_DISPLAYNAME, dav.P_CALDESC, dav.P_CALCOLOR, dav.P_CALORDER, dav.P_ABDESC, dav.P_ABCOLOR,
+    dav.P_DISPLAYNAME, dav.P_CALDESC, dav.P_CALCOLOR, dav.P_CALORDER, dav.P_ABDESC, dav.P_ABCOLOR, dav.P_COMMENT,
 ]
 PROP_TAGS = {
     "displayname": dav.P_DISPLAYNAME,
@@ -238,6 +238,7 @@ class DavSys:
     def replay(self, hist):
         if self.last_audit is None:
             self.last_audit = self.audit()
+            self.initial_audit = self.last_audit
             if "sync" in self.cfg.features:
                 self.recording = False
                 self.sync_step(("init",), self.last_audit)
@@ -386,6 +387,7 @@ class DavSys:
         if resp is not None and resp.exc:
             info["exc"] = resp.exc
         self.hist.append(op)
+        self.prev_audit = prev
         audit = self.audit()
         self.recording = check
         self.check(op, info, resp, prev, audit, model_before, target_coll, target_name)
@@ -460,8 +462,6 @@ class DavSys:
                             rt = dav.resourcetypes(selfresp)
                             a["props"]["resourcetype"] = sorted(rt) if rt is not None else None
                             for pk, tag in PROP_TAGS.items():
-                                if tag == dav.P_COMMENT:
-                                    continue
                                 a["props"][pk] = selfresp.prop_text(tag)
                     elif selfresp is not None:
                         a["status"] = selfresp.status
@@ -577,6 +577,8 @@ class DavSys:
             self.check_c09(op, info, prev, audit, tcoll, tname)
         if "C06" in orc:
             self.check_c06(op, info, resp, prev, audit, tcoll, tname)
+        if "C15" in orc:
+            self.check_c15(op, info, resp, prev, audit, tcoll)
 
     @staticmethod
     def observable(a):
@@ -841,6 +843,41 @@ class DavSys:
             if uid is not None:
                 self.uidhist.pop((tcoll, uid), None)
 
+    def check_c15(self, op, info, resp, prev, audit, tcoll):
+        kind = op[0]
+        for coll in ("cal", "ab", "c2"):
+            a, pa = audit[coll], prev[coll]
+            m = self.model.get(coll)
+            if m is None or not a["exists"]:
+                continue
+            # every property the model holds (set with a success status, not removed since) reads back exactly
+            for pk, val in m["props"].items():
+                got = a["props"].get(pk)
+                if got != val:
+                    since = "after-restart" if kind == "restart" else ("immediately" if (kind == "proppatch" and coll == tcoll and op[2] == pk) else "after-%s" % kind)
+                    self.violation("C15", "readback:%s:%s:%s" % (pk, since, "missing" if got is None else "different"), "property %s of %s was set to %r with status 200 but PROPFIND returns %r" % (pk, coll, val, got), {"op": op, "coll": coll})
+            if not pa["exists"]:
+                continue
+            for pk in a["props"]:
+                if pk == "resourcetype":
+                    if a["props"][pk] != pa["props"].get(pk):
+                        self.violation("C15", "resourcetype-changed:%s" % kind, "resource type changed", {"op": op, "coll": coll})
+                    continue
+                changed = a["props"][pk] != pa["props"].get(pk)
+                if not changed:
+                    continue
+                targeted = kind == "proppatch" and coll == tcoll and op[2] == pk and info.get("success")
+                if not targeted:
+                    why = "other-collection" if (kind == "proppatch" and coll != tcoll) else ("other-property" if kind == "proppatch" and coll == tcoll and info.get("success") else ("failed-proppatch" if kind == "proppatch" else kind))
+                    self.violation("C15", "unrelated-change:%s:%s" % (pk, why), "property %s of %s changed from %r to %r by %s" % (pk, coll, pa["props"].get(pk), a["props"][pk], why), {"op": op, "coll": coll, "info": info})
+            if kind == "proppatch" and coll == tcoll and info.get("success") and op[3] is None:
+                old = pa["props"].get(op[2])
+                if old is not None and a["props"].get(op[2]) == old and old != (posixpath.basename(COLL_PATHS[coll].rstrip("/")) if op[2] == "displayname" else None):
+                    self.violation("C15", "remove-acknowledged-but-value-stays:%s" % op[2], "remove of %s answered 200 but the value is still returned" % op[2], {"op": op})
+            if kind == "proppatch" and coll == tcoll:
+                if pa["get"] != a["get"] or pa["listing"] != a["listing"]:
+                    self.violation("C15", "members-changed-by-proppatch", "a PROPPATCH changed members", {"op": op})
+
     # -- C07: sync-collection ---------------------------------------------
 
     def sync_report(self, coll, token):
@@ -952,8 +989,9 @@ def default_ops(s):
         if m is None:
             if coll == "c2":
                 ops.append(("mkcalendar", "c2"))
-                ops.append(("put", "c2", names[0], bods[0]))
-                ops.append(("delete", "c2", names[0]))
+                if names and bods:
+                    ops.append(("put", "c2", names[0], bods[0]))
+                    ops.append(("delete", "c2", names[0]))
             continue
         for nm in names:
             for b in bods:
